@@ -248,6 +248,7 @@ def C10(ctx):
     ctx.only_skip = ("SCQ.",)
     vyukov.iterator_rules(ctx)
     vyukov.cursor_prev_pairing(ctx)
+    vyukov.array_advance_only_outside_extension(ctx)
     vyukov.cache_coherence(ctx)
     harris.guard_deref_after_release(ctx, FILES["C10"])
     origin.rules(ctx, FILES["C10"], floor_guarded=20)
@@ -266,6 +267,7 @@ def C11(ctx):
     vyukov.locking(ctx)
     vyukov.iterator_rules(ctx)
     vyukov.cursor_prev_pairing(ctx)
+    vyukov.array_advance_only_outside_extension(ctx)
     vyukov.cache_coherence(ctx)
     return ("Decides the iterator lock typestate (including special members), coherence of the cached bucket state after erase(iterator&), "
             "paired position fields extension/prev, and the marker protocol on the iterator's removal paths.",
